@@ -152,7 +152,40 @@ def visitors(ctx, F):
         e = n(ps[0].ret) if len(ps) == 1 else None
         if b.name == "visit_str":
             m = match(("call", V("vb"), (P(1), ("call", "core::str::<impl str>::as_bytes", (P(2),)))), e) if e else None
-            ctx.ob(r, ("FuzzyHashStringVisitor::visit_str", "delegates"), bool(m) and m["vb"].endswith("visit_bytes"), "visit_str is %s" % (sym.fmt(e) if e else e), cfg=F.key, where=b.where())
+            okd = bool(m) and m["vb"].endswith("visit_bytes")
+            whyd = "visit_str is %s" % (sym.fmt(e) if e else e)
+            if not okd:
+                # any other spelling, by abstract evaluation: the whole string, unchanged, goes either to visit_bytes(as_bytes) (result returned
+                # as is) or to the text parser FromStr (= from_str_bytes(.., None), R-04.4) with its error through de::Error::custom
+                from .. import evalx
+                evalx.set_target(F)
+                S_ = sym.Sym(b)
+                okd = True
+                try:
+                    for outcome in (("Ok", ("obj", "h")), ("Err", ("obj", "e"))):
+                        used = []
+
+                        def vb(self_, bytes_, outcome=outcome, used=used):
+                            if bytes_ != ("app", "core::str::<impl str>::as_bytes", ("obj", "v")):
+                                raise evalx.Unknown("visit_bytes(%r)" % (bytes_,))
+                            used.append("bytes")
+                            return ("Ok", outcome[1]) if outcome[0] == "Ok" else ("Err", ("app", "serde::de::Error::custom", outcome[1]))
+
+                        def fs(v_, outcome=outcome, used=used):
+                            if v_ != ("obj", "v"):
+                                raise evalx.Unknown("from_str(%r)" % (v_,))
+                            used.append("str")
+                            return outcome
+                        got = evalx.run(S_, F, S_.paths(), {"symbolic": True, "params": {1: ("obj", "self"), 2: ("obj", "v")},
+                                                          "calls": {"::visit_bytes": vb, "core::str::FromStr::from_str": fs, "core::str::<impl str>::parse": fs}})
+                        want = ("Ok", outcome[1]) if outcome[0] == "Ok" else ("Err", ("app", "serde::de::Error::custom", outcome[1]))
+                        if got != want or len(set(used)) != 1:
+                            okd = False
+                            whyd = "visit_str returns %r when the parser gives %s" % (got, outcome[0])
+                except (evalx.Unknown, evalx.Panics) as ex:
+                    okd = False
+                    whyd += " (cannot evaluate: %s)" % ex
+            ctx.ob(r, ("FuzzyHashStringVisitor::visit_str", "delegates"), okd, whyd, cfg=F.key, where=b.where())
         elif b.name == "visit_bytes":
             why = _visitor_semantics(F, b, "string")
             ctx.ob(r, ("FuzzyHashStringVisitor::visit_bytes", "parser-with-autodetect"), why is None,
